@@ -518,7 +518,7 @@ func (m *observerManager) Reset() {
 		return
 	}
 
-	for i := range m.maxEventType + 1 {
+	for i := range int(m.maxEventType) + 1 {
 		if !m.hasObservers[i] {
 			continue
 		}
